@@ -454,6 +454,11 @@ package resolver
 //@   assert at store dns.MsgHdr.RecursionDesired#1: !value
 //@   assert at store dns.MsgHdr.AuthenticatedData#1: !value
 //@   assert at store dns.MsgHdr.CheckingDisabled#1: value == !h.resolver.dnssec && !req.CheckingDisabled
+//@   # C13: with validation off the request is resolved with CD forced on; the CLIENT's CD bit is put back on the request
+//@   # whether or not resolution produced a response, so a failure reply built from the request is filed in the
+//@   # client's own CD partition
+//@   assert at store dns.MsgHdr.CheckingDisabled#2: value == originalCD && !h.resolver.dnssec
+//@   possible at store dns.MsgHdr.CheckingDisabled#2: lastret("(*middleware/resolver.Resolver).Resolve") == nil
 //@   assert at call internal/dnsutil.SetRcodeWithEDE#1: lastret("(*middleware/resolver.Resolver).Resolve", 1) != nil && arg0 == req && arg1 == dns.RcodeServerFailure && arg3 == lastret("internal/dnsutil.ErrorToEDE") && arg4 == lastret("internal/dnsutil.ErrorToEDE", 1)
 //@   assert at call internal/dnsutil.ErrorToEDE#1: arg0 == lastret("(*middleware/resolver.Resolver).Resolve", 1)
 //@   assert at return#5: result == lastret("internal/dnsutil.SetRcodeWithEDE#1") && lastret("(*middleware/resolver.Resolver).Resolve", 1) != nil
